@@ -1,28 +1,355 @@
 package main
 
 import (
+	"encoding/json"
+	"flag"
 	"fmt"
 	"os"
-
-	"golang.org/x/tools/go/packages"
-	"golang.org/x/tools/go/ssa"
-	"golang.org/x/tools/go/ssa/ssautil"
+	"path/filepath"
+	"regexp"
+	"sort"
+	"strconv"
+	"strings"
+	"time"
 )
 
-func main() {
-	cfg := &packages.Config{Mode: packages.LoadSyntax, Dir: os.Args[1], BuildFlags: []string{"-tags=verif"}}
-	pkgs, err := packages.Load(cfg, os.Args[2:]...)
+type knownFinding struct {
+	Kind       string // finding | fixed
+	Property   string
+	Obligation string
+	What       string
+}
+
+func readKnownFindings(path string) []knownFinding {
+	data, err := os.ReadFile(path)
 	if err != nil {
-		panic(err)
+		return nil
 	}
-	prog, spkgs := ssautil.Packages(pkgs, ssa.NaiveForm|ssa.GlobalDebug)
-	prog.Build()
-	for _, p := range spkgs {
-		for _, m := range p.Members {
-			if f, ok := m.(*ssa.Function); ok {
-				f.WriteTo(os.Stdout)
+	var out []knownFinding
+	re := regexp.MustCompile(`^(finding|fixed):\s+property=(\S+)\s+(?:commit=\S+\s+)?obligation=(\S+)\s*(.*)$`)
+	for _, l := range strings.Split(string(data), "\n") {
+		l = strings.TrimSpace(l)
+		if l == "" || strings.HasPrefix(l, "#") {
+			continue
+		}
+		m := re.FindStringSubmatch(l)
+		if m == nil {
+			continue
+		}
+		out = append(out, knownFinding{m[1], m[2], m[3], m[4]})
+	}
+	return out
+}
+
+func hasProp(props []string, p string) bool {
+	for _, x := range props {
+		if x == p {
+			return true
+		}
+	}
+	return false
+}
+
+func specServes(fs *FuncSpec, prop string) bool {
+	if hasProp(fs.Props, prop) {
+		return true
+	}
+	check := func(cs []Clause) bool {
+		for _, c := range cs {
+			if hasProp(c.Tags, prop) {
+				return true
+			}
+		}
+		return false
+	}
+	if check(fs.Requires) || check(fs.Ensures) || check(fs.StepInvs) {
+		return true
+	}
+	for _, l := range fs.Loops {
+		if check(l.Invariants) || check(l.Decreases) {
+			return true
+		}
+	}
+	return false
+}
+
+func main() {
+	repo := flag.String("repo", "/repo", "repository working tree")
+	prop := flag.String("prop", "", "property id (Cnn); empty = all")
+	tier := flag.String("tier", "quick", "quick|thorough")
+	outDir := flag.String("out", "/verif/out", "output directory")
+	verifDir := flag.String("verif", "/verif", "verif directory (specs, known findings, evidence)")
+	only := flag.String("func", "", "verify only this function (debug)")
+	dump := flag.Bool("dump", false, "dump obligations (debug)")
+	evidence := flag.Bool("evidence", true, "write evidence file")
+	listFuncs := flag.Bool("list", false, "list functions")
+	flag.Parse()
+	start := time.Now()
+	seed := 0
+	if s := os.Getenv("VERIF_SEED"); s != "" {
+		seed, _ = strconv.Atoi(s)
+	}
+	eng, err := loadEngine(*repo, filepath.Join(*verifDir, "specs"))
+	if err != nil {
+		fmt.Fprintf(os.Stderr, "govc: load failed: %v\n", err)
+		// a tree that does not build cannot be verified: report as violation of the requested property
+		if *prop != "" {
+			rp := writeReplayFile(*outDir, *prop, "load", map[string]any{"obligation": "load", "error": err.Error()})
+			fmt.Printf("VIOLATION property=%s replay=%s no-failing-input-found\n", *prop, rp)
+		}
+		os.Exit(1)
+	}
+	if *listFuncs {
+		var ns []string
+		for n := range eng.funcs {
+			ns = append(ns, n)
+		}
+		sort.Strings(ns)
+		for _, n := range ns {
+			fmt.Println(n)
+		}
+		return
+	}
+	timeout := 10
+	cross := false
+	if *tier == "thorough" {
+		timeout = 60
+		cross = true
+	}
+	// select functions
+	var names []string
+	for n, fs := range eng.specs {
+		if *only != "" && n != *only {
+			continue
+		}
+		if fs.Trusted {
+			continue
+		}
+		if *prop == "" || *only != "" || specServes(fs, *prop) {
+			names = append(names, n)
+		}
+	}
+	sort.Strings(names)
+	var all []*Obligation
+	var fcs []*FnCtx
+	var bindFailures []string
+	bindFailures = append(bindFailures, eng.bindErrors...)
+	for _, n := range names {
+		fc, err := eng.verifyFunction(n, eng.specs[n])
+		if err != nil {
+			bindFailures = append(bindFailures, err.Error())
+			continue
+		}
+		fcs = append(fcs, fc)
+		for _, ob := range fc.obligations {
+			if *prop == "" || *only != "" || hasProp(ob.Props, *prop) {
+				all = append(all, ob)
 			}
 		}
 	}
-	fmt.Println("ok")
+	qdir := filepath.Join(*outDir, "queries", *prop)
+	os.RemoveAll(qdir)
+	solveAll(all, qdir, timeout, cross, 12)
+	if *dump {
+		for _, ob := range all {
+			fmt.Printf("%-12s %-8s %6dms %s  [%s] %s\n", ob.Status, ob.Solver, ob.Ms, ob.Name, ob.Pos, ob.Src)
+		}
+		for _, fc := range fcs {
+			for _, a := range fc.abstracted {
+				fmt.Printf("ABSTRACTED %s: %s\n", fc.name, a)
+			}
+			for h := range fc.havocCallees {
+				fmt.Printf("HAVOC-CALLEE %s: %s\n", fc.name, h)
+			}
+		}
+	}
+	code := report(eng, *prop, *tier, seed, all, fcs, bindFailures, *outDir, *verifDir, start, *evidence, *repo)
+	os.Exit(code)
+}
+
+func writeReplayFile(outDir, prop, name string, content map[string]any) string {
+	dir := filepath.Join(outDir, "replay", prop)
+	os.MkdirAll(dir, 0o755)
+	p := filepath.Join(dir, sanitizeFile(name)+".json")
+	data, _ := json.MarshalIndent(content, "", " ")
+	os.WriteFile(p, data, 0o644)
+	return p
+}
+
+func report(eng *Engine, prop, tier string, seed int, obs []*Obligation, fcs []*FnCtx, bindFailures []string,
+	outDir, verifDir string, start time.Time, writeEvidence bool, repo string) int {
+	known := readKnownFindings(filepath.Join(verifDir, "known_findings.txt"))
+	isKnown := func(name string) *knownFinding {
+		for i := range known {
+			if known[i].Kind == "finding" && known[i].Obligation == name && (prop == "" || known[i].Property == prop) {
+				return &known[i]
+			}
+		}
+		return nil
+	}
+	violations := 0
+	nOb, nDis := 0, 0
+	var samples []map[string]any
+	var knownHit []string
+	var notDischarged []string
+	var coverWarn []string
+	solverMs := int64(0)
+	bySolver := map[string]int{}
+	var lines []string
+	for _, ob := range obs {
+		solverMs += ob.Ms
+		if ob.Cover {
+			switch ob.Status {
+			case "cover-ok":
+			case "cover-vacuous":
+				violations++
+				rp := writeReplayFile(outDir, prop, ob.Name, map[string]any{"obligation": ob.Name, "kind": "vacuity", "explanation": "the assumptions at this point are contradictory (cover query is unsat): proofs beyond it would be vacuous", "pos": ob.Pos, "src": ob.Src})
+				lines = append(lines, fmt.Sprintf("VIOLATION property=%s replay=%s obligation=%s (vacuous: %s) no-failing-input-found", prop, rp, ob.Name, ob.Src))
+			default:
+				coverWarn = append(coverWarn, ob.Name)
+			}
+			continue
+		}
+		nOb++
+		bySolver[ob.Solver]++
+		if len(samples) < 12 {
+			samples = append(samples, map[string]any{"obligation": ob.Name, "status": ob.Status, "solver": ob.Solver, "ms": ob.Ms, "at": ob.Pos, "clause": ob.Src})
+		}
+		if ob.Status == "discharged" {
+			nDis++
+			continue
+		}
+		if kf := isKnown(ob.Name); kf != nil {
+			knownHit = append(knownHit, ob.Name)
+			lines = append(lines, fmt.Sprintf("KNOWN-FINDING: property=%s %s %s", prop, ob.Name, kf.What))
+			nOb-- // not part of the claim
+			continue
+		}
+		violations++
+		notDischarged = append(notDischarged, ob.Name)
+		content := map[string]any{"obligation": ob.Name, "status": ob.Status, "solver": ob.Solver, "pos": ob.Pos, "clause": ob.Src, "note": ob.Note,
+			"solver_outputs": ob.Outputs, "query_file": filepath.Join(outDir, "queries", prop, sanitizeFile(ob.Name)+".smt2")}
+		suffix := " no-failing-input-found"
+		if ob.Model != "" {
+			content["model"] = extractInputs(ob)
+			content["raw_model"] = ob.Model
+			if verdict, test, out := tryReplay(eng, ob, repo, outDir); verdict != "" {
+				content["replay_verdict"] = verdict
+				content["replay_test"] = test
+				content["replay_output"] = out
+				if verdict == "reproduced" {
+					suffix = ""
+				}
+			}
+		} else {
+			content["explanation"] = "solver returned " + ob.Status + " (no model): obligation undischarged"
+		}
+		rp := writeReplayFile(outDir, prop, ob.Name, content)
+		lines = append(lines, fmt.Sprintf("VIOLATION property=%s replay=%s obligation=%s status=%s%s", prop, rp, ob.Name, ob.Status, suffix))
+	}
+	for _, bf := range bindFailures {
+		violations++
+		rp := writeReplayFile(outDir, prop, "bind-"+fmt.Sprint(violations), map[string]any{"obligation": "binding", "error": bf})
+		lines = append(lines, fmt.Sprintf("VIOLATION property=%s replay=%s binding-failure: %s no-failing-input-found", prop, rp, bf))
+	}
+	if nOb == 0 && len(knownHit) == 0 {
+		violations++
+		rp := writeReplayFile(outDir, prop, "no-obligations", map[string]any{"obligation": "none", "error": "no obligations were generated for this property (vacuity guard)"})
+		lines = append(lines, fmt.Sprintf("VIOLATION property=%s replay=%s no obligations generated no-failing-input-found", prop, rp))
+	}
+	for _, l := range lines {
+		fmt.Println(l)
+	}
+	// evidence
+	if writeEvidence && prop != "" {
+		var funcs []string
+		assumptions := map[string]bool{}
+		var abstracted []string
+		havoc := map[string]bool{}
+		assumedSpecs := map[string]bool{}
+		modelsUsed := map[string]bool{}
+		for _, fc := range fcs {
+			funcs = append(funcs, fc.name)
+			for a := range fc.assumptions {
+				assumptions[a] = true
+			}
+			for _, a := range fc.abstracted {
+				abstracted = append(abstracted, fc.name+": "+a)
+			}
+			for h := range fc.havocCallees {
+				havoc[fc.name+" -> "+h] = true
+			}
+			for s := range fc.assumedSpecs {
+				assumedSpecs[s] = true
+			}
+			for m := range fc.usedModels {
+				modelsUsed[m] = true
+			}
+		}
+		sort.Strings(funcs)
+		ev := map[string]any{
+			"property_id": prop, "tier": tier, "seed": seed, "level": "proof",
+			"wall_s": time.Since(start).Seconds(), "violations": violations,
+			"coverage": map[string]any{
+				"obligations": nOb, "discharged": nDis,
+				"checker_cmd":  fmt.Sprintf("bin/govc -repo %s -prop %s -tier %s (SMT queries raced on z3 4.8.12, z3-new 5.1.0, cvc5 1.0)", repo, prop, tier),
+				"trusted_base": []string{"go/types + go/ssa (x/tools v0.50.0) faithful SSA of /repo", "govc VC generator (validated by must-fail corpus + cover queries)", "SMT solvers z3/cvc5", "Hoare logic with cut-point invariants; Owicki-Gries / rely-guarantee for lock, channel and atomic invariants"},
+				"samples":      samples, "functions_under_contract": funcs,
+				"discharged_by_solver": bySolver, "solver_time_s": float64(solverMs) / 1000.0,
+				"known_finding_obligations": knownHit, "undischarged": notDischarged, "cover_inconclusive": coverWarn,
+				"abstracted_instructions": abstracted, "havoc_callees": sortedKeys(havoc),
+				"assumed_contracts": sortedKeys(assumedSpecs), "library_models": sortedKeys(modelsUsed),
+				"integer_semantics": "Go integers are mathematical Int with exact 64-bit wrap-around for + - and constant *, truncated / and % ; spec arithmetic is mathematical",
+			},
+			"assumptions": sortedKeys(assumptions),
+		}
+		// merge static per-property notes
+		if notes, err := os.ReadFile(filepath.Join(verifDir, "specs", "notes", prop+".json")); err == nil {
+			var extra map[string]any
+			if json.Unmarshal(notes, &extra) == nil {
+				cov := ev["coverage"].(map[string]any)
+				for k, v := range extra {
+					if k == "assumptions" {
+						if arr, ok := v.([]any); ok {
+							as := ev["assumptions"].([]string)
+							for _, a := range arr {
+								as = append(as, fmt.Sprint(a))
+							}
+							ev["assumptions"] = as
+						}
+						continue
+					}
+					cov[k] = v
+				}
+			}
+		}
+		data, _ := json.MarshalIndent(ev, "", " ")
+		os.MkdirAll(filepath.Join(verifDir, "evidence"), 0o755)
+		os.WriteFile(filepath.Join(verifDir, "evidence", prop+".json"), data, 0o644)
+	}
+	fmt.Printf("govc: property=%s tier=%s obligations=%d discharged=%d known=%d violations=%d wall=%.1fs\n", prop, tier, nOb, nDis, len(knownHit), violations, time.Since(start).Seconds())
+	if violations > 0 {
+		return 1
+	}
+	return 0
+}
+
+// extractInputs pulls the values of named input symbols out of a solver model.
+func extractInputs(ob *Obligation) map[string]string {
+	out := map[string]string{}
+	re := regexp.MustCompile(`\(define-fun\s+(\S+)\s+\(\)\s+(\S+)\s+([^\n]*?)\)\s*$`)
+	lines := strings.Split(ob.Model, "\n")
+	for i := 0; i < len(lines); i++ {
+		l := strings.TrimSpace(lines[i])
+		if strings.HasPrefix(l, "(define-fun") && !strings.HasSuffix(l, ")") && i+1 < len(lines) {
+			l = l + " " + strings.TrimSpace(lines[i+1])
+		}
+		if m := re.FindStringSubmatch(l); m != nil {
+			name := m[1]
+			if strings.HasPrefix(name, "in_") || strings.HasPrefix(name, "glob_") || strings.HasPrefix(name, "now") || strings.HasPrefix(name, "ghost_") {
+				out[name] = m[3]
+			}
+		}
+	}
+	return out
 }
